@@ -519,6 +519,10 @@ class SDENextLevel(FunctionContract):
         interp.hooks["rpylib.process.markovchain.markovchain:MarkovChainProcess.process_drift"] = lambda it, f, b: b["self"].fields["_drift_tag"]
         interp.hooks["rpylib.montecarlo.path:MCPath.update"] = lambda it, f, b: None
         interp.hooks[LM + "LevyModel.blumenthal_getoor_index"] = lambda it, f, b: ctx.PATH.ghost["beta"]
+        # the level-0 process' deterministic part = the model's CURRENT initial value (abstract: whatever it is when asked)
+        interp.hooks["rpylib.markovchain.markovchainsde:MarkovChainSDE.deterministic_path"] = None
+        interp.hooks.pop("rpylib.markovchain.markovchainsde:MarkovChainSDE.deterministic_path")
+        interp.hooks["rpylib.process.markovchain.markovchainsde:MarkovChainSDE.deterministic_path"] = lambda it, f, b: ctx.PATH.ghost["x0_now"]
 
     def setup(self, vc, case):
         g = vc.ghost
@@ -537,7 +541,7 @@ class SDENextLevel(FunctionContract):
                    epsilon=vc.real("eps_old"), _process_representation=None, _spots=spots)
         pm = vc.obj("rpylib.montecarlo.path:MCPath", deterministic_path=None)
         pms = [pm]
-        g.update(h=h, beta=beta, lvl=lvl, d_h=d_h, d_new=d_new, new_driver_fine=new_driver_fine, pms=pms, spots=spots, mcp=vc.int("mc_paths"))
+        g.update(h=h, beta=beta, lvl=lvl, d_h=d_h, d_new=d_new, new_driver_fine=new_driver_fine, pms=pms, spots=spots, mcp=vc.int("mc_paths"), x0_now=spots)
         return dict(self=o, mc_paths=g["mcp"], path_managers=pms, product=vc.obj("rpylib.product.product:Product"))
 
     def ensures(self, result, self_=None, path_managers=None, **kw):
@@ -560,8 +564,49 @@ class SDENextLevel(FunctionContract):
             it = ctx.INTERP
             both = it.call(path_managers[-1].fields["deterministic_path"], [np.array([ctx.PATH.fresh("t", "r")], dtype=object)], {})
             out["deterministic-part-is-the-initial-value-for-both-components"] = And(both[0] == g["spots"], both[1] == g["spots"])
+            # history: the model's initial value is reassigned after the level was set up -- both components start from the
+            # CURRENT initial value (the one the Euler increments are computed from)
+            g["x0_now"] = ctx.PATH.fresh("initial_value_after_reassignment", "r")
+            again = it.call(path_managers[-1].fields["deterministic_path"], [np.array([ctx.PATH.fresh("t", "r")], dtype=object)], {})
+            out["deterministic-part-follows-a-reassigned-initial-value"] = And(again[0] == g["x0_now"], again[1] == g["x0_now"])
         return out
 
+
+def _sde_next_level_replay(self, model, clause, case):
+    if "reassigned" not in clause:
+        return None
+    import warnings
+    from rpylib.distribution.sampling import SamplingMethod
+    from rpylib.grid.spatial import CTMCUniformGrid
+    from rpylib.model.levydrivensde.levydrivensde import LevyDrivenSDEModel, DiagX
+    from rpylib.model.levymodel.mixed.hem import HEMParameters, HEMModel
+    from rpylib.process.coupling.couplingsde import CouplingSDE
+    from rpylib.product.payoff import Swaption
+    from rpylib.product.product import Product
+    from rpylib.product.underlying import Libors
+    with warnings.catch_warnings():
+        warnings.simplefilter("ignore")
+        driver = HEMModel(parameters=HEMParameters(sigma=0.1, p=0.6, eta1=20, eta2=25, intensity=3))
+        m = LevyDrivenSDEModel(driver=driver, x0=3.0, a=DiagX(1))
+        grid = CTMCUniformGrid(h=0.02, model=m)
+        cp = CouplingSDE(model=m, method=SamplingMethod.BINARYSEARCHTREEADAPTED1D, grid=grid)
+        product = Product(payoff_underlying=Libors(), payoff=Swaption(underlying_rates=np.full(1, 0.02), deltas=np.ones(1), strike=0.02), maturity=1.0, notional=100.0)
+        cp.initialisation(product)
+        cp.pre_computation(4, product)
+
+        class PM:
+            deterministic_path = None
+
+            def update(self, representation):
+                pass
+        pms = [PM()]
+        cp.next_level(4, pms, product)
+        m.x0 = np.array([5.0])              # the initial value is reassigned after the level was set up
+        start = np.ravel(np.asarray(pms[-1].deterministic_path(np.array([0.0, 1.0])), dtype=float))
+    return (not np.allclose(start, 5.0), {"initial_value_at_construction": 3.0, "reassigned_to": 5.0, "deterministic_part_of_the_coupled_level": start.tolist()})
+
+
+SDENextLevel.replay = _sde_next_level_replay
 
 UNITS = [ProbabilityToRight(), CouplingState(), Telescoping(), DiffusionCoupling(), NextLevel(), CopulaCouplingState(), SDENextLevel()]
 ASSUMPTIONS = ["A1: floats are mathematical reals", "A6: the model's mass is an additive non-negative interval function (C09/C12)",
